@@ -273,7 +273,8 @@ func series(r *Result) map[string][]obs {
 func stopCallIdx(r *Result) map[string][]int {
 	out := map[string][]int{}
 	for idx, e := range r.Trace {
-		if e.K == "api.call" && (strings.HasPrefix(e.S, "stop:") || strings.HasPrefix(e.S, "stopctx:")) {
+		// cancelling the context that was passed to Start is the third way of stopping
+		if e.K == "api.call" && (strings.HasPrefix(e.S, "stop:") || strings.HasPrefix(e.S, "stopctx:") || strings.HasPrefix(e.S, "cancelctx:")) {
 			out[e.I] = append(out[e.I], idx)
 		}
 	}
